@@ -84,8 +84,8 @@ func c15Check(c c15Case, rec *evid.Recorder) *Fail {
 		}
 		for i, m := range found {
 			cm := c.Comments[i]
-			got := strings.TrimRight(out[m[0]+2:m[1]], " \r")
-			want := strings.TrimRight(cm.Text, " \r")
+			got := strings.TrimRight(out[m[0]+2:m[1]], " \t\r")
+			want := strings.TrimRight(cm.Text, " \t\r")
 			if got != want {
 				return failf("[%s] comment %d is %q in the formatted output, %q in the source (order or text changed)\nformatted %q\nsrc %q", cfg, i, got, want, out, c.Src)
 			}
